@@ -697,10 +697,14 @@ def run(ck):
     # p = 3 (constant mean + SE, d=1), default number of starts (4 = 3 scripted + centre)
     for cv in (False, True):
         if quick:
-            add_multisets(d5e, "SE", "C", cv, None)
+            # one criterion with the default number of starts, the other with two scripted starts (rotating with the seed)
+            if int(cv) == seed % 2:
+                add_multisets(d5e, "SE", "C", cv, None)
+            else:
+                add_product(d5e, "SE", "C", cv, 3)
         else:
             add_product(d5e, "SE", "C", cv, None)
-            add_product(d5n, "SE", "C", cv, None)
+            add_multisets(d5n, "SE", "C", cv, None)
             add_multisets(d8e, "SE", "C", cv, None)
         # bounds supplied by the user instead of estimated
         if quick:
@@ -741,8 +745,8 @@ def run(ck):
         "scores: cartesian lattice designs (n in 3,5,8; d in 1,2; 4 point layouts) x noise (none, y_err, full y_cov) x kernels (SE, RQ, SE+WN, "
         "CP(SE,SE)) x means (constant, linear, quadratic) x {low,mid,high} per hyper-parameter block (mean, amplitude, length-scale, extra) "
         "(quick: Latin thirds/ninths of the hyper-parameter product); distinct = (configuration, decade of cond(K+S)). select: every tuple of "
-        "scripted start placements from {0,1/2,1-}^p: p=3 with the default 4 starts - thorough the full ordered product 27^3, quick all 3654 "
-        "multisets plus all orders of every 29th; p=4 - one scripted start (81), two (6561, thorough), default 5 starts on the near-diagonal; "
+        "scripted start placements from {0,1/2,1-}^p: p=3 with the default 4 starts - thorough the full ordered product 27^3 (one design; multisets on two more), quick all 3654 "
+        "multisets plus all orders of every 29th for one criterion and the product 27^2 with two scripted starts for the other; p=4 - one scripted start (81), two (6561, thorough), default 5 starts on the near-diagonal; "
         "p=5..7 one scripted start (3^p); distinct = configuration x number of distinct optima reached. diffev: fixed numpy seed, bounds only."
     )
     ck.assume("continuous inputs are represented by the listed finite lattices; n <= 8 (50-digit reference); points with cond(K+S) > 1e10 are skipped and counted")
